@@ -42,14 +42,14 @@ func (r *ReplaySource) EndBlock(w *World, b *Block) {}
 
 // Case is one executed history on the primary replica.
 type Case struct {
-	Prop    string
-	Hist    *History
-	W       *World
-	Sim     *Sim
-	Results []*BlockResult
+	Prop     string
+	Hist     *History
+	W        *World
+	Sim      *Sim
+	Results  []*BlockResult
 	Outcomes [][]TxOutcome
-	EndedBy string // "", "empty_validator_set", "bad_validator_update", "panic"
-	Panic   *PanicError
+	EndedBy  string // "", "empty_validator_set", "bad_validator_update", "panic"
+	Panic    *PanicError
 	inCommit bool
 }
 
